@@ -269,16 +269,18 @@ def constant_body(c):
     # the closed form treats tips at height 0 as rho-sampled when rho > 0, psi-sampled otherwise - same rule as the skyline
     if abs(v - w) > 1e-8 * max(1.0, abs(w)):
         return res.fail("mismatch", {"skyline_single_epoch": v, "closed_form": w})
-    # the BirthDeathModel class (constant rates) must agree with the single-epoch skyline
-    if all(x > 0 for x in th) or rho == 0 or all(x == 0 for x in th):
-        spec = spec_of(c)
+    # the BirthDeathModel class (constant rates) must agree with the single-epoch skyline and the closed form
+    # (not asserted in the degenerate case of contemporaneous tips without rho-sampling, where tips at the
+    # present would have to be psi-sampled at an instant: the two classes agree with each other there but the
+    # reading is a convention)
+    if not (all(x == 0 for x in th) and rho == 0) and (psi > 0 or all(x == 0 for x in th)):
         bd = {"id": "bd", "type": "BirthDeathModel", "tree_model": "tree", "lambda": tt.P("bd.lambda", [lam]), "mu": tt.P("bd.mu", [mu]),
               "psi": tt.P("bd.psi", [psi]), "rho": tt.P("bd.rho", [rho]), "origin": tt.P("bd.origin", [x0]), "survival": c["survival"]}
-        if psi > 0 and (rho == 0 or all(x > 0 for x in th)) and max(th) > 0 and rho == 0:
-            m2, _ = tt.build(bd, dic)
-            u = arr(m2()).reshape(-1)
-            if u.size != 1 or abs(u[0] - v) > 1e-8 * max(1.0, abs(v)):
-                return res.fail("birth_death_class", {"BirthDeathModel": u.tolist(), "BDSKModel": v}, cls="BirthDeathModel")
+        m2, _ = tt.build(bd, dic)
+        u = arr(m2()).reshape(-1)
+        res.labels = res.labels + ("birth_death_class",)
+        if u.size != 1 or not np.isfinite(u).all() or abs(u[0] - w) > 1e-8 * max(1.0, abs(w)):
+            return res.fail("birth_death_class", {"BirthDeathModel": u.tolist(), "closed_form": w, "BDSKModel": v, "rho": rho, "psi": psi, "tips": th}, cls="BirthDeathModel")
     return res
 
 
